@@ -378,6 +378,7 @@ func (fr *Frame) loopHeader(li *loopInfo, b *ssa.BasicBlock, preds []*ssa.BasicB
 		invs = fc.LoopInv[li.ordinal]
 	}
 	// 1. invariants hold on entry
+	li.ghostK = IntLit(0)
 	for i, inv := range invs {
 		for _, phi := range phis {
 			fr.vals[phi] = li.phiEntry[phi]
@@ -408,6 +409,9 @@ func (fr *Frame) loopHeader(li *loopInfo, b *ssa.BasicBlock, preds []*ssa.BasicB
 		fr.assumeWF(c, phi.Type(), st, 1)
 	}
 	// 3. assume invariants
+	li.ghostK = enc.declare(fr.pfx+"ghostk", "Int")
+	li.ghostKHead = li.ghostK
+	enc.assume(Le(IntLit(0), li.ghostK), "ghost iteration count")
 	for _, inv := range invs {
 		t := fr.trInvariant(inv, li, st, entry)
 		enc.assume(Implies(pc, t), "loop invariant "+inv.Where())
@@ -514,10 +518,14 @@ func (fr *Frame) backEdge(li *loopInfo, from *ssa.BasicBlock) {
 		fr.vals[phi] = v
 	}
 	st := fr.out[from.Index]
+	if li.ghostKHead != nil {
+		li.ghostK = Add(li.ghostKHead, IntLit(1))
+	}
 	for i, inv := range invs {
 		t := fr.trInvariant(inv, li, st, li.entryState)
 		enc.oblige(fmt.Sprintf("loop%d:inv%d:preserved", li.ordinal, i+1), inv.Where(), inv.Text, inv.Tags, c, t)
 	}
+	li.ghostK = li.ghostKHead
 	for phi, v := range saved {
 		fr.vals[phi] = v
 	}
@@ -556,6 +564,10 @@ func (fr *Frame) resolveName(name string, li *loopInfo) (TV, bool) {
 			if phi, ok := ins.(*ssa.Phi); ok && phi.Comment == "rangeindex" {
 				return TV{Add(fr.vals[phi], IntLit(1)), tyInt}, true
 			}
+		}
+		if li.ghostK != nil {
+			// no range index (range over a map, plain for): $k is the ghost count of completed iterations
+			return TV{li.ghostK, tyInt}, true
 		}
 		return TV{}, false
 	}
